@@ -141,7 +141,11 @@ def _install():
 
 def _mkcell(z, cid=0):
     from forsys import vertex as fvx, cell as fc
-    vs = [fvx.Vertex(i, float(p.real), float(p.imag)) for i, p in enumerate(z)]
+    if all(float(p.real).is_integer() and float(p.imag).is_integer() and abs(p) < 2 ** 40 for p in z):
+        # pixel coordinates arrive as Python / numpy integers
+        vs = [fvx.Vertex(i, int(p.real), int(p.imag)) for i, p in enumerate(z)]
+    else:
+        vs = [fvx.Vertex(i, float(p.real), float(p.imag)) for i, p in enumerate(z)]
     return fc.Cell(cid, vs), vs
 
 
@@ -151,8 +155,21 @@ def _poly_case(case, mon):
     sigs = []
     nchecked = 0
     for _ in range(case["count"]):
-        kind = ["convex", "star", "nonconvex", "rectilinear"][int(rng.integers(4))]
-        if kind == "rectilinear":
+        kind = ["convex", "star", "nonconvex", "rectilinear", "intgrid"][int(rng.integers(5))]
+        if kind == "intgrid":
+            # convex polygon whose corners are pixel (integer) coordinates: oblique sides of irrational length
+            import scipy.spatial as _sp
+            P_ = rng.integers(0, 40, (int(rng.integers(6, 30)), 2))
+            try:
+                hull = _sp.ConvexHull(P_)
+            except Exception:
+                continue
+            z = np.array([complex(int(P_[i, 0]), int(P_[i, 1])) for i in hull.vertices]) + \
+                complex(int(rng.integers(-100, 100)), int(rng.integers(-100, 100)))
+            n = len(z)
+            size = np.abs(z - z.mean()).max()
+            scale0 = 1.0
+        elif kind == "rectilinear":
             # axis-parallel rectangle on an integer grid with extra vertices ON its sides: runs of exactly collinear
             # vertices, several vertices sharing the smallest x / y (pixel outlines look like this)
             w, h = int(rng.integers(1, 6)), int(rng.integers(1, 6))
